@@ -1,0 +1,17 @@
+//go:build verif
+// +build verif
+
+package libp2p
+
+// MaxSendBuffSizeVerif returns the maximum size of a buffer the messenger accepts for sending
+// (the network message size limit). Verification builds only (build tag `verif`).
+func MaxSendBuffSizeVerif() int {
+	return maxSendBuffSize
+}
+
+// CheckSendableDataVerif calls the real networkMessenger.checkSendableData (it uses no field of the
+// messenger) on the provided buffer. Verification builds only (build tag `verif`).
+func CheckSendableDataVerif(buff []byte) error {
+	netMes := &networkMessenger{}
+	return netMes.checkSendableData(buff)
+}
